@@ -196,6 +196,12 @@ TLegacy ==
   /\ LET e == Trace[l] IN
      /\ Report(l, "P:C06:load", IF e.err # "" \/ e.pan # "" THEN {1} ELSE {})
      /\ inst' = IF e.err = "" /\ e.pan = "" THEN LegacyContent(e) ELSE NoInst
+     \* Level C: the bytes the harness's writer produced are the stream SlimWireOld defines
+     /\ LayerM => Report(l, "M:legacy-wire",
+                         IF Len(e.wire) = 0 THEN {}
+                         ELSE IF e.v3 = 1
+                              THEN (IF e.wire # V3Stream(OldTrie(e.keys), e.vals, e.patch) THEN {"three-section"} ELSE {})
+                              ELSE (IF e.wire # Old0510Stream(LegacyContent(e), e.minor) THEN {"0.5.1x"} ELSE {}))
 
 \* the writers of the harness reproduce the archived fixtures byte for byte
 TCalibration ==
